@@ -5,7 +5,8 @@
     IfFeature.Evaluate and ifFeatureEval.* after the two "fix: if-feature ..." commits), tied to
     the code by the C11 correspondence check. *)
 From Coq Require Import ZArith List Bool Arith Strings.Byte.
-From YV Require Import Feature.IfFeature Feature.IfFeatureProofs Feature.Guard Feature.GuardProofs Feature.Deviate Feature.DeviateProofs.
+From YV Require Import Feature.IfFeature Feature.IfFeatureProofs Feature.IfFeatureEnvProofs Feature.Guard Feature.GuardProofs
+  Feature.GuardTree Feature.GuardTreeProofs Feature.Deviate Feature.DeviateProofs.
 Import ListNotations.
 
 (** ** (i) the evaluator implements RFC 7950 7.20.2 on every expression and every assignment *)
@@ -125,19 +126,86 @@ Example C11_guard_hyps_met :
                     GRefines [[(mkStyle [x20] [] 0, Feat [x61])]; [(mkStyle [x20] [] 0, Not (Feat [x61]))]]] = true.
 Proof. exact guard_hyps_met. Qed.
 
-(** "a malformed expression anywhere makes the load fail" is false of the code: checkFeature
-    stops at the first expression that is off (known finding 2).  Witness: a leaf guarded by
-    "zz" (not a feature) and then by "and and" loads, without the leaf. *)
-Definition C11_guard_malformed_full_statement : Prop :=
-  forall cfg declared ss, (exists s t, In s ss /\ In t (concat (match s with
-      | SData i | SCase i | SUses i | SAugment i => [i] | SRefines r => r end)) /\
-      eval_impl t (env_of (initialize cfg declared)) = RErr) ->
-  compile cfg declared ss = LoadErr.
-Theorem C11_guard_malformed_refuted :
+(** Whether a text is an expression does not depend on the features: a syntax error under one
+    assignment is one under every assignment (so the syntax check that Builder.IfFeature makes
+    against no features at all rejects exactly the malformed arguments) *)
+Theorem C11_syntax_independent_of_features : forall t e1 e2,
+  eval_impl t e1 = RErr -> eval_impl t e2 = RErr.
+Proof. exact eval_err_indep. Qed.
+Print Assumptions C11_syntax_independent_of_features.
+
+(** A MALFORMED EXPRESSION IS AN ERROR: if any if-feature argument of any statement is malformed
+    (an error under whatever assignment), the load fails - also when the argument follows an
+    expression that is off on the same statement. *)
+Theorem C11_guard_malformed : forall cfg declared ss t e,
+  In t (flat_map stmt_texts ss) -> eval_impl t e = RErr -> compile cfg declared ss = LoadErr.
+Proof. exact guard_malformed. Qed.
+Print Assumptions C11_guard_malformed.
+
+(** The loader as it was violated that statement: checkFeature stopped at the first expression
+    that is off (formerly known finding 2; fixed in the repo by "fix: a malformed if-feature
+    expression is an error wherever it stands").  Witness: a leaf guarded by "zz" (not a feature)
+    and then by "and and" loaded, without the leaf. *)
+Theorem C11_guard_malformed_pinned_commit_refuted :
   eval_impl [x61; x6e; x64; x20; x61; x6e; x64] (env_of []) = RErr /\
-  compile (AllBut []) [[x61]] [SData kf2_texts] = Loaded [[false]].
+  compile_old (AllBut []) [[x61]] [SData kf2_texts] = Loaded [[false]] /\
+  compile (AllBut []) [[x61]] [SData kf2_texts] = LoadErr.
 Proof. exact lazy_malformed. Qed.
-Print Assumptions C11_guard_malformed_refuted.
+Print Assumptions C11_guard_malformed_pinned_commit_refuted.
+
+(** ** (ii) continued: guarded statements at every depth.  Model: Feature/GuardTree.v - the
+    traversal of meta/resolver.go over a whole module (module, enter, addDataDefinition,
+    expandUses with applyRefinements, expandAugment for augments inside a uses and - after the
+    definitions were resolved inside the augment once - for module-level augments), one flag per
+    statement. *)
+
+(** GUARD PRESENCE AT EVERY DEPTH.  For every configuration, every set of declared features and
+    every module - data nodes, choices and cases, uses with the definitions of their grouping,
+    refines and augments, module-level augments, rpcs/actions with input and output,
+    notifications, nested in each other in any way and to any depth - whose if-feature arguments
+    are written expressions: the load succeeds, and a statement is in the compiled schema (a
+    refine applied) exactly when ALL the expressions on it AND on every statement it is written
+    inside are true of the enabled features. *)
+Theorem C11_guard_tree_presence : forall cfg declared ts, forallb gnode_ok ts = true ->
+  compile_tree cfg declared (map node_of ts) = TLoaded (map (spec_tree cfg declared true) ts).
+Proof. exact guard_tree_presence. Qed.
+Print Assumptions C11_guard_tree_presence.
+
+(** the same, statement by statement: [path] leads from the i-th top statement through child
+    positions to a statement, [gss] are the if-feature statements met on the way *)
+Theorem C11_guard_tree_presence_at : forall cfg declared ts, forallb gnode_ok ts = true ->
+  exists obs, compile_tree cfg declared (map node_of ts) = TLoaded obs /\
+    forall i g path gss, nth_error ts i = Some g -> guards_at g path = Some gss ->
+      exists p, nth_error obs i = Some p /\
+                flag_at p path = Some (forallb (all_true cfg declared) gss).
+Proof. exact guard_tree_presence_at. Qed.
+Print Assumptions C11_guard_tree_presence_at.
+
+(** a malformed expression is an error wherever it stands in the module, also below a statement
+    that is itself off *)
+Theorem C11_tree_malformed : forall cfg declared top t e,
+  In t (flat_map node_texts top) -> eval_impl t e = RErr -> compile_tree cfg declared top = TErr.
+Proof. exact tree_malformed. Qed.
+Print Assumptions C11_tree_malformed.
+
+(** before the fix: container { if-feature a; leaf { if-feature "and and"; } } loaded with a off *)
+Theorem C11_tree_malformed_pinned_commit_refuted :
+  compile_tree_old (OnlyOn []) [[x61]] shadowed_module = TLoaded [Pt false [Pt false []]] /\
+  compile_tree (OnlyOn []) [[x61]] shadowed_module = TErr.
+Proof. exact tree_lazy_malformed. Qed.
+Print Assumptions C11_tree_malformed_pinned_commit_refuted.
+
+(** non-vacuity: a module with a guarded leaf in the input of an action, a guarded uses with a
+    refine and an augment holding a guarded leaf, a guarded case, a guarded module-level augment
+    with a guarded container and an action - and what the resolver leaves of it with b on, a off *)
+Example C11_tree_hyps_met :
+  forallb gnode_ok sample_module = true /\
+  compile_tree (OnlyOn [[x62]]) [[x61]; [x62]] (map node_of sample_module)
+  = TLoaded [Pt true [Pt true [Pt true [Pt false []]];
+                      Pt true [Pt true []; Pt true []; Pt true []; Pt true [Pt true []; Pt false []]];
+                      Pt true [Pt true [Pt true []]]];
+             Pt true [Pt true []; Pt false [Pt false []]; Pt true []]].
+Proof. exact tree_hyps_met. Qed.
 
 (** ** (iii) deviations.  Model: Feature/Deviate.v (meta/resolver.go applyDeviation after the
     "fix: deviate ..." commits) *)
